@@ -97,7 +97,11 @@ func prop(cl claim) engine.AnyProp {
 			w := ind.Idle(cfg)
 			n := rapid.IntRange(0, 3*w+40).Draw(t, "n")
 			class := rapid.SampledFrom([]string{"walk", "flat", "monotone", "sawtooth", "ties", "zeros", "spikes", "decimal", "flatbars"}).Draw(t, "class")
-			return Case{Cfg: cfg, Bars: gen.GenBarsOf(t, n, class)}
+			b := gen.GenBarsOf(t, n, class)
+			if rapid.IntRange(0, 7).Draw(t, "narrow_bars") == 3 {
+				b = gen.Narrow(t, b)
+			}
+			return Case{Cfg: cfg, Bars: b}
 		},
 		Check: func(c Case) engine.Outcome {
 			var o engine.Outcome
@@ -147,6 +151,15 @@ func prop(cl claim) engine.AnyProp {
 					checked++
 					if !math.IsNaN(cl.lo) {
 						rtol := 1e-9 * math.Max(1, math.Abs(cl.hi-cl.lo))
+						if refs != nil {
+							// "up to rounding": where the error analysis of the documented formula
+							// (running sums over non-dyadic values, then a ratio) gives a wider bound
+							// at this position, that bound is the rounding allowance
+							if b, ok := refs[j].Get(k + w); ok && !b.IsBad() && ref.Slack*b.E > rtol {
+								rtol = ref.Slack * b.E
+								o.Add("range_checks_with_the_reference_error_bound", 1)
+							}
+						}
 						if (v < cl.lo-rtol || v > cl.hi+rtol) && bad == "" {
 							bad = fmt.Sprintf("output %q value #%d (position %d) = %v lies outside [%v, %v]", ind.Outs[j], k, k+w, v, cl.lo, cl.hi)
 						}
@@ -306,8 +319,11 @@ func accelIntProp[T helper.Integer](name string, bits int) engine.AnyProp {
 		Gen: func(t *rapid.T) IntBars[T] {
 			c := IntBars[T]{Period: rapid.IntRange(1, 5).Draw(t, "period")}
 			n := rapid.IntRange(0, 20).Draw(t, "n")
-			// level up to 2^(bits-5): sums of 5 highs still fit; range a fraction 2^-k of the level
-			level := int64(1) << rapid.IntRange(3, bits-5).Draw(t, "level_log2")
+			// level below 2^(bits-6): a high is at most 3.4 x level, so the sum of the 5 highs of the
+			// longest window stays below 17/64 of the type's span and cannot overflow (the thorough
+			// tier once produced 5 x 429496732 > MaxInt32 with a bound two bits higher: the harness's
+			// overflow, not the library's); range a fraction 2^-k of the level
+			level := int64(1) << rapid.IntRange(3, bits-7).Draw(t, "level_log2")
 			level += rapid.Int64Range(0, level-1).Draw(t, "level")
 			rng := level >> rapid.IntRange(1, 16).Draw(t, "range_log2")
 			if rng < 1 {
